@@ -449,6 +449,9 @@ class Engine:
         # override emit settings in store
         if store_schema:
             self.state._apply_config(store_schema)
+            # the schema may have expanded the hierarchy (e.g. a new
+            # child of a store that a process views through a glob)
+            self.state.build_topology_views()
 
         # settings for self._emit_configuration()
         self.emit_topology = emit_topology
